@@ -50,6 +50,8 @@ type Line struct {
 	Grp    string            `json:"grp"`
 	Clause string            `json:"clause"`
 	Call   string            `json:"call"`
+	Base   string            `json:"base"` // k = "fn": the target function (JavaScript text)
+	Fn     string            `json:"fn"`   // k = "fn": the function object in terms of F = the target
 	Names  []string          `json:"names"`
 	Mask   json.RawMessage   `json:"mask"`
 	Owner  string            `json:"owner"`
@@ -70,8 +72,70 @@ func (l *Line) label() string {
 		return "property " + l.Owner + " . " + l.Name
 	case "call":
 		return "call of " + l.ID + ": " + l.Call
+	case "fn":
+		return "function object " + l.ID + " = " + l.Fn + " with F = " + l.Base
 	}
 	return "for-in over " + l.Js
+}
+
+// fnMask names the facets of a function-object line on which the specification says "n/a".
+func (l *Line) fnMask() string {
+	var e struct {
+		Call      string `json:"call"`
+		New       string `json:"new"`
+		Prototype struct {
+			Own string `json:"own"`
+		} `json:"prototype"`
+		Thr struct {
+			Own string `json:"own"`
+		} `json:"thr"`
+	}
+	json.Unmarshal(l.Exp, &e)
+	m := ""
+	if e.Call == "n/a" {
+		m += " call"
+	}
+	if e.New == "n/a" {
+		m += " new"
+	}
+	if e.Prototype.Own == "n/a" {
+		m += " prototype"
+	}
+	if e.Thr.Own == "n/a" {
+		m += " thr"
+	}
+	return m + " "
+}
+
+// facetDiff names the facets of a function-object observation that differ from the expectation (from the
+// expectation under the open findings when that one is closer).
+func facetDiff(got string, l *Line) string {
+	var o map[string]json.RawMessage
+	if json.Unmarshal([]byte(got), &o) != nil {
+		return "implementation " + trunc(got, 300)
+	}
+	diff := func(exp json.RawMessage) []string {
+		var e map[string]json.RawMessage
+		json.Unmarshal(exp, &e)
+		var ks, ds []string
+		for k := range e {
+			ks = append(ks, k)
+		}
+		sort.Strings(ks)
+		for _, k := range ks {
+			if !same(string(o[k]), e[k]) {
+				ds = append(ds, fmt.Sprintf("%s: implementation %s ; specification %s", k, trunc(string(o[k]), 200), trunc(string(e[k]), 200)))
+			}
+		}
+		return ds
+	}
+	ds := diff(l.Exp)
+	if len(l.Dev) > 0 {
+		if dd := diff(l.Dev[0]); len(dd) < len(ds) {
+			ds = append(dd, "(compared with the expectation under the open findings)")
+		}
+	}
+	return strings.Join(ds, " | ")
 }
 
 var vmMu sync.Mutex // underscore.Enable/Disable is process-global
@@ -181,6 +245,16 @@ func attach(cfg Config, vm *otto.Otto, lines []*Line) (s *session, err error) {
 			return nil, fmt.Errorf("REGISTER %s: %v", l.ID, err)
 		}
 	}
+	// the function objects of the family spec/C14Fn.tla are created now: in the configurations that copy a
+	// runtime "after", they are made in the original and observed in the copy
+	for _, l := range lines {
+		if l.K != "fn" {
+			continue
+		}
+		if _, err := vm.Call("DYNREG", nil, l.ID, l.Base, l.Fn); err != nil {
+			return nil, fmt.Errorf("DYNREG %s: %v", l.ID, err)
+		}
+	}
 	return s, nil
 }
 
@@ -189,6 +263,11 @@ func attach(cfg Config, vm *otto.Otto, lines []*Line) (s *session, err error) {
 // answers for every own name) is probed last: a Go panic escaping the runtime
 // is an observation ("go-panic"), after which the session is rebuilt.
 func (s *session) observe(l *Line) (out string, err error) {
+	if l.K == "fn" {
+		// only what the projection needs crosses into the runtime: the names to look for and which facets the
+		// specification leaves open ("n/a")
+		return s.call("OBSFN", l.ID, l.Names, l.fnMask())
+	}
 	out, err = s.call("OBSLINE", l.raw)
 	if err != nil && l.K == "call" && strings.HasPrefix(err.Error(), "GO PANIC") {
 		s.panics = append(s.panics, l.ID+" call: "+err.Error())
@@ -312,15 +391,23 @@ func (s *session) str(fn string, args ...any) (string, error) {
 }
 
 // cfgText: OpenDev = the open findings (of any property) that the table mentions.
-func cfgText(c *core.Ctx) string {
+func cfgText(c *core.Ctx, generator bool) string {
 	tab, _ := os.ReadFile(filepath.Join(c.SpecDir, "LibShapeTab.tla"))
+	fns, _ := os.ReadFile(filepath.Join(c.SpecDir, "C14Fn.tla"))
 	var ids []string
 	for _, id := range c.Findings.OpenIDs() {
-		if bytes.Contains(tab, []byte(`D("`+id+`")`)) {
+		if bytes.Contains(tab, []byte(`D("`+id+`")`)) || bytes.Contains(fns, []byte(`D("`+id+`")`)) {
 			ids = append(ids, id)
 		}
 	}
-	return fmt.Sprintf("CONSTANTS\n OpenDev = %s\nINIT Init\nNEXT Next\nINVARIANT Emit\nCHECK_DEADLOCK FALSE\n", core.TLASet(ids))
+	deep := "" // only the generator has the constant
+	if generator {
+		deep = " Deep = FALSE\n"
+		if c.Thorough() {
+			deep = " Deep = TRUE\n"
+		}
+	}
+	return fmt.Sprintf("CONSTANTS\n OpenDev = %s\n%sINIT Init\nNEXT Next\nINVARIANT Emit\nCHECK_DEADLOCK FALSE\n", core.TLASet(ids), deep)
 }
 
 // Mutated holds what spec/C14.tla says about a runtime that ran the structural mutation script.
@@ -336,7 +423,7 @@ var mutated Mutated
 func Generate(c *core.Ctx) ([]*Line, *tlc.Result, error) {
 	var lines []*Line
 	var perr error
-	res, err := tlc.Run(tlc.Opts{SpecDir: c.SpecDir, Module: "C14", Cfg: cfgText(c), Workers: c.Workers, Timeout: 10 * time.Minute},
+	res, err := tlc.Run(tlc.Opts{SpecDir: c.SpecDir, Module: "C14", Cfg: cfgText(c, true), Workers: c.Workers, Timeout: 10 * time.Minute},
 		func(p []byte) {
 			l := &Line{raw: string(p)}
 			if e := json.Unmarshal(p, l); e != nil && perr == nil {
@@ -402,13 +489,31 @@ func trunc(s string, n int) string {
 
 // Check is the property check.
 func Check(c *core.Ctx) (map[string]any, []string, error) {
+	phase := map[string]float64{} // wall seconds per phase (informative)
+	mark := time.Now()
+	lap := func(name string) {
+		phase[name] = time.Since(mark).Seconds()
+		mark = time.Now()
+	}
 	lines, res, err := Generate(c)
 	if err != nil {
 		return nil, nil, err
 	}
-	nObj, nRow, nForin, nCall, nDevLines := 0, 0, 0, 0, 0
+	lap("generate")
+	// table: the lines of the library table; the function objects made at run time (spec/C14Fn.tla) are replayed
+	// on every configuration (made before the copy where the configuration copies "after") and, below, on the
+	// members of one copy group; the other passes (self-tests, sweeps, judge walk) are about the table
+	var table []*Line
+	for _, l := range lines {
+		if l.K != "fn" {
+			table = append(table, l)
+		}
+	}
+	nObj, nRow, nForin, nCall, nFn, nDevLines := 0, 0, 0, 0, 0, 0
 	for _, l := range lines {
 		switch l.K {
+		case "fn":
+			nFn++
 		case "obj":
 			nObj++
 		case "call":
@@ -451,7 +556,7 @@ func Check(c *core.Ctx) (map[string]any, []string, error) {
 				// using the library does not change it: a second pass over the same runtime observes the same
 				r.second = s.secondPass()
 			}
-			r.xtra = extrasOf(cfgs[i], lines)
+			r.xtra = extrasOf(cfgs[i], table)
 			if cfgs[i].Copy != "after" {
 				// the complete shape of everything reachable from the global object
 				r.dump, r.dumpSkip, r.err = dumpOf(cfgs[i])
@@ -495,10 +600,14 @@ func Check(c *core.Ctx) (map[string]any, []string, error) {
 				got = m.err.Error()
 			}
 			detail := fmt.Sprintf("[%s] %s (ES5 %s): implementation %s ; specification %s", cfgs[i].Name, m.line.label(), m.line.Clause, trunc(got, 300), trunc(string(m.line.Exp), 300))
+			if m.line.K == "fn" && m.err == nil {
+				detail = fmt.Sprintf("[%s] %s (ES5 %s): %s", cfgs[i].Name, m.line.label(), m.line.Clause, facetDiff(got, m.line))
+			}
 			c.Violate(detail, map[string]any{"config": cfgs[i], "line": json.RawMessage(m.line.raw), "observed": got, "expected": m.line.Exp})
 		}
 	}
 
+	lap("configurations")
 	// 2. every fresh runtime and every copy has the identical shape
 	shapeCmp := 0
 	base := map[bool]int{}
@@ -521,11 +630,12 @@ func Check(c *core.Ctx) (map[string]any, []string, error) {
 
 	// 2b. runtimes are independent: a structural change of the library in one runtime of a group
 	// {original, copy, copy of the copy} leaves the shape of every other one (and of later copies) alone
-	groups, err := groupFamily(c, lines)
+	groups, err := groupFamily(c, table)
 	if err != nil {
 		return nil, nil, err
 	}
 
+	lap("copy_groups")
 	// 3. informative: what the implementation adds to the table (clause 16 allows it)
 	var extras map[string][]string
 	json.Unmarshal([]byte(results[0].xtra), &extras)
@@ -538,13 +648,14 @@ func Check(c *core.Ctx) (map[string]any, []string, error) {
 	sort.Strings(extraList)
 
 	// 4. the calls distinguish: f's call applied to every other function of the same owner must not give f's result
-	dist, err := distinguishing(lines)
+	dist, err := distinguishing(table)
 	if err != nil {
 		return nil, nil, err
 	}
 
+	lap("distinguishing")
 	// 5. the binding is live: seeded changes of the runtime and of an expected value are rejected
-	self, err := selfTest(lines)
+	self, err := selfTest(table, lines)
 	if err != nil {
 		return nil, nil, err
 	}
@@ -560,10 +671,11 @@ func Check(c *core.Ctx) (map[string]any, []string, error) {
 		}
 	}
 
+	lap("self_test")
 	// 5b. thorough: every function-valued property mutated three ways; runtimes created concurrently
 	var sweep, conc map[string]any
 	if c.Thorough() {
-		if sweep, err = mutationSweep(c, lines); err != nil {
+		if sweep, err = mutationSweep(c, table); err != nil {
 			return nil, nil, err
 		}
 		if conc, err = concurrentFresh(c, 16); err != nil {
@@ -574,12 +686,13 @@ func Check(c *core.Ctx) (map[string]any, []string, error) {
 	// 6. the judge direction
 	var judge map[string]any
 	{
-		judge, err = runJudge(c, lines)
+		judge, err = runJudge(c, table)
 		if err != nil {
 			return nil, nil, err
 		}
 	}
 
+	lap("judge_and_sweeps")
 	var samples []any
 	for _, l := range lines {
 		if (l.K == "row" && l.Owner == "Math" && l.Name == "atan2") || (l.K == "call" && l.ID == "Array.prototype.push") || (l.K == "obj" && l.ID == "RegExp.prototype") || (l.K == "forin" && l.ID == "i:string") {
@@ -596,7 +709,7 @@ func Check(c *core.Ctx) (map[string]any, []string, error) {
 		"evaluations": evals, "distinct_nontrivial": len(distinct),
 		"rule":                          "one line per object, own property and for-in subject of the ES5 table (all lines enumerated by TLC), each replayed on every configuration; distinct = distinct table entries (every entry is compared on >= 5 facets, none is trivial)",
 		"tlc":                           map[string]any{"generated": res.Generated, "distinct": res.Distinct, "lines": res.Lines, "wall_s": res.Wall},
-		"table":                         map[string]any{"objects": nObj, "own_properties": nRow, "forin_subjects": nForin, "distinguishing_calls": nCall, "lines_changed_by_open_findings": nDevLines},
+		"table":                         map[string]any{"objects": nObj, "own_properties": nRow, "forin_subjects": nForin, "distinguishing_calls": nCall, "function_objects_made_at_run_time": nFn, "lines_changed_by_open_findings": nDevLines},
 		"configurations":                perCfg,
 		"conforming":                    conform,
 		"conforming_to_known_deviation": devHits,
@@ -609,6 +722,7 @@ func Check(c *core.Ctx) (map[string]any, []string, error) {
 		"mutation_sweep":                sweep,
 		"concurrent_fresh":              conc,
 		"judge":                         judge,
+		"phase_wall_s":                  phase,
 	}
 	assume := []string{
 		"trusted: the JavaScript-side projection (harness/internal/c14 prelude: reflection through Object.getOwnPropertyDescriptor/getOwnPropertyNames/getPrototypeOf/isExtensible, Object.prototype.toString, typeof, for-in, direct eval for the distinguishing calls), Go float64 bit projection, TLC",
@@ -716,7 +830,7 @@ func distinguishing(lines []*Line) (map[string]any, error) {
 // flipped attribute, a deleted method, an enumerable addition to a prototype,
 // a re-linked constructor) and the replay must reject each; and an expected
 // value of an emitted line is corrupted.
-func selfTest(lines []*Line) ([]map[string]any, error) {
+func selfTest(lines, all []*Line) ([]map[string]any, error) {
 	muts := []string{
 		"var t = Math.sin; Math.sin = Math.cos; Math.cos = t;",
 		"var t = Date.prototype.getHours; Date.prototype.getHours = Date.prototype.getUTCHours; Date.prototype.getUTCHours = t;",
@@ -754,6 +868,62 @@ func selfTest(lines []*Line) ([]map[string]any, error) {
 			out = append(out, map[string]any{"change": "expected length of Array.prototype.slice 2 -> 3 in the emitted line",
 				"rejected": err == nil && cor != string(l.Exp) && !same(o, json.RawMessage(cor)) && same(o, l.Exp)})
 		}
+	}
+	// the family of function objects made at run time is bound too: a bind that drops the bound arguments
+	// (lengths, results of calls) and one that hands out extensible-less objects must be rejected by its lines,
+	// and so must a corrupted expected length
+	var fns []*Line
+	for _, l := range all {
+		if l.K == "fn" {
+			fns = append(fns, l)
+		}
+	}
+	if len(fns) == 0 {
+		return out, nil
+	}
+	for _, m := range []string{
+		"var ob = Function.prototype.bind; Function.prototype.bind = function(t){ return ob.call(this, t); };",
+		"var ob = Function.prototype.bind; Function.prototype.bind = function(){ return Object.preventExtensions(ob.apply(this, arguments)); };",
+	} {
+		s, err := open(Config{Name: "mutated", Mutate: m}, all)
+		if err != nil {
+			return nil, err
+		}
+		s.lines = nil // every fifth line of the family (each target kind and chain form occurs many times)
+		for i, l := range fns {
+			if i%5 == 0 {
+				s.lines = append(s.lines, l)
+			}
+		}
+		var t tally
+		bad := s.replay(nil, &t)
+		e := map[string]any{"change": m, "rejected": len(bad) > 0, "lines_rejected": len(bad), "of_function_object_lines": len(s.lines)}
+		if len(bad) > 0 {
+			e["first"] = bad[0].line.label()
+		}
+		out = append(out, e)
+	}
+	s, err = open(Config{Name: "fresh"}, all)
+	if err != nil {
+		return nil, err
+	}
+	for _, l := range fns {
+		if !strings.Contains(l.ID, "/bind.") { // a bound function
+			continue
+		}
+		o, err := s.observe(l)
+		ref := l.Exp // the expectation the tree meets now: strict, or under the open finding
+		if !same(o, ref) && len(l.Dev) > 0 {
+			ref = l.Dev[0]
+		}
+		var m map[string]any
+		json.Unmarshal(ref, &m)
+		n := m["len"].(map[string]any)["val"].(map[string]any)["n"].(map[string]any)
+		n["v"] = n["v"].(float64) + 1
+		cor, _ := json.Marshal(m)
+		out = append(out, map[string]any{"change": "expected length of " + l.ID + " increased by one in the emitted line",
+			"rejected": err == nil && same(o, ref) && !same(o, cor)})
+		break
 	}
 	return out, nil
 }
